@@ -901,4 +901,65 @@ def Hand.isOk (r : Except SFault St) : Bool := match r with | .ok _ => true | .e
 theorem Hand.ok_of_isOk {r : Except SFault St} (h : isOk r = true) : r = .ok (finalOf r) := by
   cases r <;> simp_all [isOk, finalOf]
 
+/-! ### capacity 0: nothing can ever be created -/
+
+/-- what every state of a capacity-0 storage looks like: the store is the empty initial store, no
+    creation is in flight, the audio thread's loops run over nothing -/
+structure Hand.Zero (s : St) : Prop where
+  store : s.store = Store.new 0
+  gpc : s.gpc = .idle
+  apc : s.apc = .idle ∨ s.apc = .draining [] none ∨ s.apc = .adding
+  mustGo : s.mustGo = []
+
+theorem Hand.zero_init : Zero (init 0) := ⟨rfl, rfl, .inl rfl, rfl⟩
+
+/-- `try_reserve` on the capacity-0 store: the limit error, store unchanged, no panic -/
+theorem Store.tryReserve_new_zero {τ : Type} : (Store.new 0 : Store τ).tryReserve = .ok (none, Store.new 0) := rfl
+
+theorem Hand.zero_step {ar : Bool} {s s' : St} {l : Label} (h : Zero s) (hs : step ar s l = some (.ok s')) : Zero s' := by
+  obtain ⟨store, marked, gpc, apc, nextId, mustGo⟩ := s
+  obtain ⟨h1, h2, h3, h4⟩ := h
+  simp only at h1 h2 h3 h4
+  subst h1 h2 h4
+  cases l with
+  | gReserve =>
+    simp only [step, Store.tryReserve_new_zero, Option.some.injEq, Except.ok.injEq] at hs
+    subst hs; exact ⟨rfl, rfl, h3, rfl⟩
+  | gPopUnused => simp [step] at hs
+  | gPushNew => simp [step] at hs
+  | mark x =>
+    simp only [step, Option.some.injEq, Except.ok.injEq] at hs
+    subst hs; exact ⟨rfl, rfl, h3, rfl⟩
+  | aBegin =>
+    rcases h3 with h3 | h3 | h3 <;> subst h3 <;> simp only [step, reduceCtorEq] at hs
+    simp only [Option.some.injEq, Except.ok.injEq] at hs
+    subst hs; exact ⟨rfl, rfl, .inr (.inl rfl), rfl⟩
+  | aVisit => rcases h3 with h3 | h3 | h3 <;> subst h3 <;> simp [step] at hs
+  | aPushUnused => rcases h3 with h3 | h3 | h3 <;> subst h3 <;> simp [step] at hs
+  | aEndDrain =>
+    rcases h3 with h3 | h3 | h3 <;> subst h3 <;> simp only [step, reduceCtorEq] at hs
+    simp only [Option.some.injEq, Except.ok.injEq] at hs
+    subst hs; exact ⟨rfl, rfl, .inr (.inr rfl), rfl⟩
+  | aPopNew =>
+    rcases h3 with h3 | h3 | h3 <;> subst h3 <;> simp only [step, reduceCtorEq] at hs
+    have hp : (Store.new 0 : Store Res).popNewInsert = .ok (none, Store.new 0) := rfl
+    simp only [hp, Option.some.injEq, Except.ok.injEq] at hs
+    subst hs; exact ⟨rfl, rfl, .inl rfl, rfl⟩
+
+theorem Hand.zero_reachable {ar : Bool} {s : St} (h : Reachable ar 0 s) : Zero s := by
+  induction h with
+  | init => exact zero_init
+  | step _ hs ih => exact zero_step ih hs
+
+/-- no step of a capacity-0 storage panics -/
+theorem Hand.zero_no_fault {ar : Bool} {s : St} (h : Zero s) (l : Label) (e : SFault) :
+    step ar s l ≠ some (.error e) := by
+  obtain ⟨store, marked, gpc, apc, nextId, mustGo⟩ := s
+  obtain ⟨h1, h2, h3, h4⟩ := h
+  simp only at h1 h2 h3 h4
+  subst h1 h2 h4
+  have hp : (Store.new 0 : Store Res).popNewInsert = .ok (none, Store.new 0) := rfl
+  cases l <;> rcases h3 with h3 | h3 | h3 <;> subst h3 <;> simp [step, Store.tryReserve_new_zero, hp]
+
+
 end K
